@@ -655,3 +655,173 @@ def _is_stamp(e, stamps):
             e.func.attr in ('to_numpy', 'copy', 'astype'):
         return _is_stamp(e.func.value, stamps)
     return False
+
+
+# ------------------------------------------------------------------ FORM-SQUEEZE
+def form_squeeze(ctx, modules=('transform', 'earth', 'util', 'error_model')):
+    """A function that broadcasts several array-like arguments against each other (stack length
+    `max(len(a), len(b))` / `max(a.size, b.size)`) returns the single-item form only when EVERY
+    one of them is a single item.  A form test that asks one of them only (`lat.ndim == 0`)
+    drops all but the first item of the result when that one is a scalar and another is a
+    stack (round-9 seed C16-scalar-flag-from-latitude-only)."""
+    ctx.rule('FORM-SQUEEZE', 'where several arguments are broadcast against each other, every test '
+             'that selects the single-item form asks all of them')
+    n = 0
+    for f in ctx.repo.all_functions():
+        short = f.module.name.split('.')[-1]
+        if short not in modules or '.tests' in f.module.name:
+            continue
+
+        def sized(e):
+            if isinstance(e, ast.Call) and isinstance(e.func, ast.Name) and e.func.id == 'len' \
+                    and len(e.args) == 1 and isinstance(e.args[0], ast.Name):
+                return e.args[0].id
+            if isinstance(e, ast.Attribute) and e.attr == 'size' and isinstance(e.value, ast.Name):
+                return e.value.id
+            if isinstance(e, ast.Subscript) and isinstance(e.value, ast.Attribute) and \
+                    e.value.attr == 'shape' and isinstance(e.value.value, ast.Name) and \
+                    norm_text(e.slice) == '0':
+                return e.value.value.id
+            return None
+        bcast = set()
+        for c in ast.walk(f.node):
+            if isinstance(c, ast.Call) and norm_text(c.func) in ('max', 'np.maximum', 'np.max') \
+                    and len(c.args) >= 2:
+                nm = [sized(a) for a in c.args]
+                if all(nm) and len(set(nm)) >= 2:
+                    bcast |= set(nm)
+        if len(bcast) < 2:
+            continue
+        # form tests: conjunctions / single comparisons of `<name>.ndim` with 0 or 1
+        def ndim_names(t):
+            out = set()
+            for x in ast.walk(t):
+                if isinstance(x, ast.Compare) and isinstance(x.left, ast.Attribute) and \
+                        x.left.attr == 'ndim' and isinstance(x.left.value, ast.Name) and \
+                        len(x.ops) == 1 and isinstance(x.ops[0], (ast.Eq, ast.NotEq)) and \
+                        isinstance(x.comparators[0], ast.Constant) and \
+                        x.comparators[0].value in (0, 1):
+                    out.add(x.left.value.id)
+            return out
+        tests = []
+        for x in ast.walk(f.node):
+            if isinstance(x, (ast.If, ast.IfExp)):
+                tests.append((x.test, x))
+            elif isinstance(x, ast.Assign) and len(x.targets) == 1 and \
+                    isinstance(x.targets[0], ast.Name) and ndim_names(x.value):
+                tests.append((x.value, x))
+        for t, node in tests:
+            S = ndim_names(t)
+            if not (S & bcast):
+                continue
+            n += 1
+            missing = sorted(bcast - S)
+            ctx.ob('FORM-SQUEEZE', not missing, None, '%s: the form test `%s` asks every broadcast '
+                   'argument' % (f.qualname, norm_text(t)[:50]), f=f, node=node,
+                   key='squeeze-%s-%s' % (f.qualname, norm_text(t)[:40]),
+                   why='%s broadcasts %s against each other (stack length = the largest of their '
+                       'lengths) but decides the single-item form by `%s` alone: with a scalar '
+                       'there and a stack in `%s` the result of the stacked computation is cut '
+                       'down to its first item' % (f.qualname, sorted(bcast), norm_text(t)[:60],
+                                                   ', '.join(missing)))
+    ctx.floor('FORM-SQUEEZE', n, 1, 'form tests over broadcast arguments')
+
+
+# ------------------------------------------------------------------ ZERO-BY-SUM
+_CANCEL = ('sum', 'mean', 'nansum', 'nanmean', 'trace', 'average')
+_NONNEG = ('abs', 'absolute', 'fabs', 'square', 'count_nonzero', 'any', 'all', 'hypot', 'linalg.norm',
+           'norm')
+
+
+def _zero_by_sum_sites(fnode):
+    """[(selecting node, cancelling reduction node)] in one function"""
+    defs = {}
+    for st in ast.walk(fnode):
+        if isinstance(st, ast.Assign) and len(st.targets) == 1 and \
+                isinstance(st.targets[0], ast.Name):
+            defs.setdefault(st.targets[0].id, []).append(st.value)
+
+    def cancelling(e, depth=0):
+        """the reduction call if e is a sum/mean of values that are not made non-negative"""
+        if isinstance(e, ast.Name) and len(defs.get(e.id, [])) == 1 and depth < 3:
+            return cancelling(defs[e.id][0], depth + 1)
+        if not isinstance(e, ast.Call):
+            return None
+        fn = e.func
+        nm = fn.attr if isinstance(fn, ast.Attribute) else getattr(fn, 'id', '')
+        if nm not in _CANCEL:
+            return None
+        operand = None
+        if isinstance(fn, ast.Attribute) and isinstance(fn.value, ast.Name) and \
+                fn.value.id in ('np', 'numpy'):
+            operand = e.args[0] if e.args else None
+        elif isinstance(fn, ast.Attribute):
+            operand = fn.value
+        if operand is None:
+            return None
+        for x in ast.walk(operand):
+            if isinstance(x, ast.Call):
+                t = norm_text(x.func)
+                if any(t.endswith(k) for k in _NONNEG):
+                    return None
+            if isinstance(x, ast.Compare):
+                return None
+            if isinstance(x, ast.BinOp) and isinstance(x.op, ast.Pow):
+                return None
+        return e
+    out = []
+    for c in ast.walk(fnode):
+        red = None
+        if isinstance(c, ast.Call) and norm_text(c.func) in (
+                'np.flatnonzero', 'np.nonzero', 'np.argwhere', 'numpy.flatnonzero',
+                'numpy.nonzero', 'numpy.argwhere') and c.args:
+            red = cancelling(c.args[0])
+        elif isinstance(c, ast.Call) and norm_text(c.func) in ('np.where', 'numpy.where') and \
+                len(c.args) == 1:
+            red = cancelling(c.args[0])
+        elif isinstance(c, ast.Compare) and len(c.ops) == 1 and \
+                isinstance(c.ops[0], (ast.NotEq, ast.Eq)) and \
+                isinstance(c.comparators[0], ast.Constant) and c.comparators[0].value == 0 \
+                and not isinstance(c.comparators[0].value, bool):
+            red = cancelling(c.left)
+        elif isinstance(c, ast.Call) and isinstance(c.func, ast.Attribute) and \
+                c.func.attr == 'astype' and c.args and norm_text(c.args[0]) == 'bool':
+            red = cancelling(c.func.value)
+        if red is not None:
+            out.append((c, red))
+    return out
+
+
+def zero_by_sum(ctx, modules=None):
+    """`which entries / rows / columns are zero` decided through a reduction that can cancel:
+    np.flatnonzero(H.sum(axis=0)), np.nonzero(A.mean(1)), (x.sum(axis=0) != 0) used as a mask.
+    A column whose non-zero entries add up to zero is then taken for an all-zero one
+    (round-9 seed C07: a sparse-H shortcut that drops such states from the update).  The
+    non-cancelling spellings - any(), abs().sum(), count_nonzero, (x != 0).sum() - are silent."""
+    ctx.rule('ZERO-BY-SUM', 'no selection (index list or mask) is derived from the non-zero pattern '
+             'of a sum / mean of signed values: entries that cancel are not zero')
+    n = 0
+    for f in ctx.repo.all_functions():
+        short = f.module.name.split('.')[-1]
+        if modules and short not in modules:
+            continue
+        n += 1
+        for c, red in _zero_by_sum_sites(f.node):
+            ctx.ob('ZERO-BY-SUM', False, None, '%s: zero pattern read from the entries' % f.qualname,
+                   f=f, node=c, key='zerosum-%s-%s' % (f.qualname, norm_text(c)[:40]),
+                   why='`%s` takes an entry of `%s` that is zero for "nothing there": signed '
+                       'entries that cancel (a row together with its negation, differenced '
+                       'measurements) give a zero sum although they are not zero, and whatever is '
+                       'selected by it leaves them out' % (norm_text(c)[:70], norm_text(red)[:50]))
+    ctx.ob('ZERO-BY-SUM', True, None, '%d functions scanned' % n, key='summary')
+    if not ctx.cache.get('zero-by-sum-fixture'):
+        ctx.cache['zero-by-sum-fixture'] = True
+        fx = ast.parse('def g(H, P):\n    a = np.flatnonzero(H.sum(axis=0))\n'
+                       '    b = np.flatnonzero(np.abs(H).sum(axis=0))\n'
+                       '    s = H.mean(0)\n    m = s != 0\n    k = (H != 0).sum(axis=0) != 0\n'
+                       '    return a, b, m, k\n').body[0]
+        got = sorted(norm_text(c)[:30] for c, _ in _zero_by_sum_sites(fx))
+        if got != ['np.flatnonzero(H.sum(axis=0))', 's != 0']:
+            raise AssertionError('ZERO-BY-SUM fixture not recognised: %s' % got)
+        ctx.ob('ZERO-BY-SUM', True, None, 'positive fixture: sum / mean used as a zero test '
+               'detected; abs().sum() and (x != 0).sum() silent', key='fixture')
